@@ -28,7 +28,8 @@ import translate_pure  # noqa: E402
 MODULE = "QmcProofs.PureFnsAgree"
 GENERATED = os.path.join(common.LEAN, "QmcModel", "Generated", "PureFns.lean")
 AGREE = os.path.join(common.LEAN, "QmcProofs", "PureFnsAgree.lean")
-# QmcModel/Cluster.lean cannot be imported together with QmcModel/Interaction.lean (both declare Qmc.absR): own file
+# historical: QmcModel/Cluster.lean could not be imported together with QmcModel/Interaction.lean (both declared Qmc.absR;
+# resolved, design_notes/Cleanup.md): own file
 MODULE_C = "QmcProofs.PureFnsAgreeCluster"
 AGREE_C = os.path.join(common.LEAN, "QmcProofs", "PureFnsAgreeCluster.lean")
 
